@@ -100,6 +100,10 @@ def jobs(pid, tier):
         return [seq('C15')]
     if pid == 'C18':
         return [seq('C18')]
+    if pid == 'C19':
+        return [seq('C19')]
+    if pid == 'C20':
+        return [seq('C20')]
     if pid == 'C10':
         return [seq('C10')]
     if pid == 'C09':
